@@ -2,7 +2,10 @@
   Driver of the C04 state machines of the full solvers and of class `Adj`
   (Model/FullState.lean, Model/AdjState.lean).  Protocol = harness/c04_full.cpp:
     new <chol|gso|svd> solver | new <env|chol|gso|svd> adj
-    info <alg> <n> <nullity>        facts read from the implementation (echoed)
+    info <alg> <n> <nullity>        facts read from the implementation (echoed).  Round 6, solver entry: the machine
+                                     runs on `Full.inputOf alg p` (size, defect, resolution verdicts computed by the numeric
+                                     solver model at Float on the data set the object holds); the line is echoed only if
+                                     `FInfo.agrees` (same size, same defect), else `info-does-not-describe-the-problem …`
     envinfo …                        facts for the envelope solver inside Adj (echoed)
     state                            discrete state as GamaVerifProbe prints it
     x r rtr defect qxx qbb qbx lindep min_x_all min_x reset set_alg, fresh <query>
@@ -75,9 +78,11 @@ structure St where
   probs : Array (Problem Float) := #[]
   sel : Nat := 0             -- identity (1-based position) of `prob`
   obj : Option Obj := none
-  /-- nullity per algorithm as the implementation sees it (env, chol, gso, svd) -/
+  /-- adj entry: nullity per algorithm as the implementation sees it (env, chol, gso, svd) -/
   nul : AdjM.Alg → Nat := fun _ => 0
   env : Option Info := none
+  /-- solver entry (round 6): `Full.inputOf (algorithm of the object) (current problem)` — set by `new` / `reset_new` -/
+  finp : Full.Input := { n := 0, nullity := 0, resolves := fun _ => true }
 
 def b01 (x : Bool) : String := if x then "1" else "0"
 def showList (l : List Nat) : String := s!"{l.length}" ++ l.foldl (fun a i => a ++ s!" {i}") ""
@@ -94,10 +99,13 @@ def showFull (k : Kind) (s : FState) : String :=
 
 def showSvd (nullity : Nat) (s : SState) : String :=
   -- `minV` of an EARLIER input survives `reset`; it equals the plain V only if saved from the current data
-  let veq := match s.vprov with | .plain => s.minV && s.minVok | _ => false
+  -- `.broken l`: `min_subset_x` threw at SOME null column (round 6: lists of at least `defect` indices that do not
+  -- resolve it are generated); `V_` was modified iff an earlier null column had passed the test — not determined by
+  -- the symbolic state, printed as `*` (the comparator then accepts either bit)
+  let veq := match s.vprov with | .plain => b01 (s.minV && s.minVok) | .broken _ => "*" | _ => "0"
   s!"st {b01 s.solved} {b01 s.decomposed} {b01 s.sub} list " ++ (match s.list with | none => "null" | some l => showList l)
     ++ " defect " ++ (if s.decomposed then s!"{nullity}" else "-")
-    ++ " veq " ++ (if s.decomposed then b01 veq else "-")
+    ++ " veq " ++ (if s.decomposed then veq else "-")
     ++ " minV " ++ b01 s.minV
 
 def showEnv (s : EnvState) : String :=
@@ -201,10 +209,18 @@ def parseAOp (ts : List String) : Option AOp :=
   | ["reset"] => some .set
   | _ => none
 
-/-- the generator configures lists that resolve the defect, or (stream "throw") lists shorter than it -/
+/-- ADJ ENTRY ONLY (round 6: the solver entry asks the numeric model, `Full.resolvesF`): the adj generator stores lists
+    that resolve the defect -/
 def resolvesDefault (nullity : Nat) (l : List Nat) : Bool := decide (nullity ≤ (sortDedup l).length)
 
+/-- adj entry only (the solver inside `Adj` is given the homogenised system; its facts still come from the probe) -/
 def fInput (n nullity : Nat) : Full.Input := { n := n, nullity := nullity, resolves := resolvesDefault nullity }
+
+/-- solver entry: the symbolic input OF the numeric problem (`full_driver_input_is_instance`) -/
+def objAlg : Obj → Option Ls.Alg
+  | .full k _ => some (algOf k)
+  | .svd _ => some .svd
+  | .adj _ => none
 
 /-- the configured list does not resolve the defect: outside the property's quantifier -/
 def outsideF (inp : Full.Input) (s : FState) : Bool := inp.nullity != 0 && !inp.resolves (Full.eff inp s)
@@ -275,8 +291,12 @@ def step' (s : St) (line : String) : St × String :=
       let p' := s.probs.getD (k - 1) p
       let s' : St := { s with prob := some p', sel := k, env := none, nul := fun _ => 0 }
       match s.obj with
-      | some (.full kd st) => if !p'.unitCov then (s, "bad-op") else ({ s' with obj := some (.full kd (Full.freset st)) }, "ok")
-      | some (.svd st) => if !p'.unitCov then (s, "bad-op") else ({ s' with obj := some (.svd (Full.sreset st)) }, "ok")
+      | some (.full kd st) =>
+        if !p'.unitCov then (s, "bad-op")
+        else ({ s' with obj := some (.full kd (Full.freset st)), finp := Full.inputOf (algOf kd) p' }, "ok")
+      | some (.svd st) =>
+        if !p'.unitCov then (s, "bad-op")
+        else ({ s' with obj := some (.svd (Full.sreset st)), finp := Full.inputOf .svd p' }, "ok")
       | some (.adj h) =>
         -- `set(data')`: the model's `set` does not look at the data; the new facts arrive with `info`/`envinfo`
         ({ s' with obj := some (.adj (hastep h (.setData h.inp)).1) }, "ok")
@@ -288,18 +308,28 @@ def step' (s : St) (line : String) : St × String :=
     let cfgS : SState := match p.reg with
       | .subset l => Full.sinit true (some l) | _ => Full.sinit false none
     match a with
-    | "chol" => ({ s with obj := some (.full .chol cfgF), env := none }, "ok")
-    | "gso" => ({ s with obj := some (.full .gso cfgF), env := none }, "ok")
-    | "svd" => ({ s with obj := some (.svd cfgS), env := none }, "ok")
+    | "chol" => ({ s with obj := some (.full .chol cfgF), env := none, finp := Full.inputOf .chol p }, "ok")
+    | "gso" => ({ s with obj := some (.full .gso cfgF), env := none, finp := Full.inputOf .gso p }, "ok")
+    | "svd" => ({ s with obj := some (.svd cfgS), env := none, finp := Full.inputOf .svd p }, "ok")
     | _ => (s, "bad-op")
   | ["new", a, "adj"] =>
     match parseAlg a with
     | some a => ({ s with obj := some (.adj (hainit (aInput s p) a)), env := none }, "ok")
     | none => (s, "bad-op")
-  | ["info", a, _n, nul] =>
-    match parseAlg a, nul.toNat? with
-    | some a, some k => ({ s with nul := fun b => if b = a then k else s.nul b }, " ".intercalate ts)
-    | _, _ => (s, "bad-op")
+  | ["info", a, n, nul] =>
+    match parseAlg a, n.toNat?, nul.toNat? with
+    | some a, some n, some k =>
+      match s.obj.bind objAlg with
+      | some alg =>
+        -- round 6: the facts read from the real class must be those of the numeric problem the machine runs on
+        -- (`FInfo.agrees`; then `full_driver_input_is_instance`)
+        let f : FInfo := ⟨n, k⟩
+        if lsAlg a == alg && f.agrees alg p then (s, " ".intercalate ts)
+        else (s, s!"info-does-not-describe-the-problem {algName a} n {n} nullity {k} model-n {(Full.inputOf alg p).n} model-defect {(Full.inputOf alg p).nullity}")
+      | none =>
+        if n != p.n then (s, s!"info-does-not-describe-the-problem {algName a} n {n} model-n {p.n}")
+        else ({ s with nul := fun b => if b = a then k else s.nul b }, " ".intercalate ts)
+    | _, _, _ => (s, "bad-op")
   | "envinfo" :: rest =>
     match parseInfo rest with
     | some f => ({ s with env := some f }, " ".intercalate ts)
@@ -307,7 +337,7 @@ def step' (s : St) (line : String) : St × String :=
   | ["state"] =>
     match s.obj with
     | some (.full k st) => (s, showFull k st)
-    | some (.svd st) => (s, showSvd (s.nul .svd) st)
+    | some (.svd st) => (s, showSvd s.finp.nullity st)
     | some (.adj st) => (s, showAdj s.nul st)
     | none => (s, "bad-op")
   | "fresh" :: q =>
@@ -315,15 +345,14 @@ def step' (s : St) (line : String) : St × String :=
     | some (.full k st) =>
       match parseOp q with
       | some op =>
-        let a : AdjM.Alg := match k with | .chol => .chol | .gso => .gso
-        let inp := fInput p.n (s.nul a)
+        let inp := s.finp
         let o := Full.fresh k inp st.useAll st.list op
-        (s, evalFull (outsideF inp st) (lsAlg a) p (regFull st) o (Full.spec k inp (Full.eff inp st) op))
+        (s, evalFull (outsideF inp st) (algOf k) p (regFull st) o (Full.spec k inp (Full.eff inp st) op))
       | none => (s, "bad-op")
     | some (.svd st) =>
       match parseOp q with
       | some op =>
-        let inp := fInput p.n (s.nul .svd)
+        let inp := s.finp
         let o := Full.sfresh inp st.sub st.list op
         (s, evalFull (outsideS inp st) .svd p (regSvd st) o (Full.sspec inp (Full.seff st) op))
       | none => (s, "bad-op")
@@ -339,16 +368,15 @@ def step' (s : St) (line : String) : St × String :=
     | some (.full k st) =>
       match parseOp ts with
       | some op =>
-        let a : AdjM.Alg := match k with | .chol => .chol | .gso => .gso
-        let inp := fInput p.n (s.nul a)
+        let inp := s.finp
         let (st', o) := Full.step k inp st op
         ({ s with obj := some (.full k st') },
-          evalFull (outsideF inp st') (lsAlg a) p (regFull st') o (Full.spec k inp (Full.eff inp st) op))
+          evalFull (outsideF inp st') (algOf k) p (regFull st') o (Full.spec k inp (Full.eff inp st) op))
       | none => (s, "bad-op")
     | some (.svd st) =>
       match parseOp ts with
       | some op =>
-        let inp := fInput p.n (s.nul .svd)
+        let inp := s.finp
         let (st', o) := Full.sstep inp st op
         ({ s with obj := some (.svd st') },
           evalFull (outsideS inp st') .svd p (regSvd st') o (Full.sspec inp (Full.seff st) op))
